@@ -174,7 +174,8 @@ def check_case(case):
         # an accepted text without '=' must be exactly an error literal
         if form is None:
             t = s.replace('\n', '').strip()
-            if not t.startswith(('=', '{')) and not any(t.endswith(e) for e in SX.ERRORS):
+            # error literals are case-insensitive (Excel reads #n/a typed into a cell as #N/A)
+            if not t.startswith(('=', '{')) and not any(t.upper().endswith(e) for e in SX.ERRORS):
                 fails.append(('accepted-invalid|no-equals|trailing-text', '%r accepted as %s' % (s, expr)))
 
     # --- numeric literals: accepted, with their value
@@ -262,6 +263,7 @@ def fuzz_campaign(arg, tier, seed, stats, known):
     env = dict(os.environ, C18_FUZZ_OUT=out, PYTHONHASHSEED='0')
     cmd = [sys.executable, '-W', 'ignore', '-m', 'vf.props.c18_fuzz', '-runs=%d' % runs,
            '-seed=%d' % (seed * 1000 + idx + 1), '-max_len=96', '-timeout=60', '-verbosity=0', '-print_final_stats=0',
+           '-artifact_prefix=%s/' % work, '-report_slow_units=600',
            os.path.join(work, 'corpus')]
     try:
         p = subprocess.run(cmd, cwd=root, env=env, capture_output=True, text=True, errors='replace',
